@@ -78,9 +78,9 @@ PROPS["C20"] = loop("fault_enumeration",
 
 PROPS["C17"] = {
     "engine": "systemd", "level": "exploration", "evaluations": ["patterns_lists"],
-    "rule": "one evaluation = one list of exclude patterns pushed through the real build_service_text and decoded back; exhaustive over every Unicode scalar value except NUL as a one-character pattern and over every pair (thorough: triple) of 44 syntax-relevant characters, plus seeded random strings and lists of 1-4 patterns; "
+    "rule": "one evaluation = one list of exclude patterns pushed through the real build_service_text and decoded back; exhaustive over every Unicode scalar value except NUL as a one-character pattern and over every pair (thorough: triple) of 44 syntax-relevant characters, plus seeded random strings and lists of 1-4 patterns (now and then 30-150), plus every word of a dictionary mined from the string literals of the repository's own sources (template fields, format placeholders, option names, paths) alone, embedded, between wildcards and in pairs; "
             "distinct = distinct pattern lists (every case differs from the identity encoding in at least the surrounding line, so all are non-trivial)",
-    "floors": {"quick": {"single_scalar_values": 1112063, "syntax_pairs": 1900, "long_pattern_lists": 1000}, "thorough": {"single_scalar_values": 1112063, "syntax_triples": 85000, "long_pattern_lists": 50000}},
+    "floors": {"quick": {"single_scalar_values": 1112063, "syntax_pairs": 1900, "long_pattern_lists": 1000, "dictionary_tokens": 500}, "thorough": {"single_scalar_values": 1112063, "syntax_triples": 85000, "long_pattern_lists": 50000, "dictionary_tokens": 500}},
     "assumptions": ["the decoder implements systemd's documented rules (word splitting on space/tab/newline/CR, quotes anywhere in a word, C unescaping with unknown escapes kept, %% and % specifiers, $$ / ${VAR} / whole-word $VAR against an empty environment)",
                     "the ';' command-separator rule is not modelled (not among the rules the property enumerates)"],
     "level_text": "Independent decoder of systemd's ExecStart rules applied to the text the real code generates; exact argv comparison, byte for byte. Exhaustive on single scalar values and on pairs of syntax-relevant characters, sampled beyond.",
@@ -90,11 +90,12 @@ PROPS["C17"] = {
 }
 
 PROPS["C18"] = {
-    "engine": "wire", "level": "exploration", "evaluations": ["batches"],
+    "engine": "wire", "level": "exploration", "evaluations": ["batches", "session_batches"],
     "rule": "one evaluation = one batch of events written by the real DevInputWriter into a pipe (bytes compared with records built from libc::input_event), then decoded back by the real DevInputReader twice: the writer's own bytes, and the same key records with foreign records "
-            "(value 2, EV_MSC, EV_SYN, EV_REL, EV_LED, EV_REP, unknown codes, odd values) interleaved; exhaustive over all key codes x {press, release} alone and paired with a neighbour, plus the empty batch and seeded random batches of up to 2000 events; distinct = distinct batches",
-    "floors": {"quick": {"exhaustive_single": 968, "every_length_0_to_2100": 2101, "foreign_records_interleaved": 10000, "codes_matched_against_kernel_header": 300},
-               "thorough": {"exhaustive_single": 968, "every_length_0_to_2100": 2101, "foreign_records_interleaved": 100000, "codes_matched_against_kernel_header": 300}},
+            "(value 2, EV_MSC, EV_SYN, EV_REL, EV_LED, EV_REP, unknown codes, odd values) interleaved; exhaustive over all key codes x {press, release} alone and paired with a neighbour, plus the empty batch, every batch length 0-2100 and seeded random batches of up to 2000 events; "
+            "sessions: many batches through ONE writer and ONE reader, each checked as it is sent - a sweep over pairs of consecutive equal-length batches that differ in the direction of one event and the key of one event (every key), and random sessions of repeated / permuted / slightly mutated batches; distinct = distinct batches and sessions",
+    "floors": {"quick": {"exhaustive_single": 968, "every_length_0_to_2100": 2101, "foreign_records_interleaved": 10000, "codes_matched_against_kernel_header": 300, "related_pairs_swept": 100000, "sessions_random_related": 5000},
+               "thorough": {"exhaustive_single": 968, "every_length_0_to_2100": 2101, "foreign_records_interleaved": 100000, "codes_matched_against_kernel_header": 300, "related_pairs_swept": 1000000, "sessions_random_related": 100000}},
     "assumptions": ["a pipe stands in for /dev/uinput and for the evdev node (no ioctl is involved in send/next)", "struct layout taken from the libc crate for this target"],
     "level_text": "Byte oracle from libc::input_event on everything the real writer emits, decode-back through the real reader, exhaustive over the 484 key codes, sampled over batch shapes and interleavings.",
     "level_note": "Trusted: libc's struct input_event, the verif_from_fd constructor hook, the transcription of kernel key codes from the uinput-sys crate used to cross-check the numeric codes.",
@@ -146,8 +147,8 @@ PROPS["C16"] = {
     "engine": "devices", "level": "exploration", "evaluations": ["texts", "e2e_all_keyboards_runs", "e2e_dev_file_runs", "e2e_list_keyboards_runs"],
     "rule": "one evaluation = one generated /proc/bus/input/devices text (1-9 entries drawn from 33 realistic entries, renumbered, with names / key masks / event masks swapped and any field but the I: header dropped) through both real extractors (hook level), or one run of the real binary "
             "(list_keyboards, remap --all-keyboards --verbose, remap --only-if-keyboard --dev-file per device) in a private mount namespace with that text bound over /proc/bus/input/devices and fabricated /sys/devices and /dev/input; distinct = distinct texts",
-    "floors": {"quick": {"keyboard_entries_right_after_an_entry_with_a_missing_field": 5000, "exclude_sets_matching_1_device": 5000, "e2e_all_keyboards_runs": 500, "e2e_dev_file_runs": 2000, "e2e_virtual_keyboard_entries": 20, "e2e_excluded_keyboard_entries": 50, "ran_in_private_namespace": 16},
-               "thorough": {"keyboard_entries_right_after_an_entry_with_a_missing_field": 50000, "e2e_all_keyboards_runs": 10000, "e2e_dev_file_runs": 50000, "ran_in_private_namespace": 16}},
+    "floors": {"quick": {"keyboard_entries_right_after_an_entry_with_a_missing_field": 5000, "exclude_sets_matching_1_device": 5000, "e2e_all_keyboards_runs": 500, "e2e_dev_file_runs": 2000, "e2e_virtual_keyboard_entries": 20, "e2e_excluded_keyboard_entries": 50, "ran_in_private_namespace": 16, "dictionary_tokens": 500, "related_pattern_lists": 5000},
+               "thorough": {"dictionary_tokens": 500, "keyboard_entries_right_after_an_entry_with_a_missing_field": 50000, "e2e_all_keyboards_runs": 10000, "e2e_dev_file_runs": 50000, "ran_in_private_namespace": 16}},
     "assumptions": ["entries are delimited by the I: line, which the kernel always prints", "an entry's own classification (the extractor run on that entry alone) defines keyboard-like", "glob semantics of --exclude: * any sequence, ? one character, whole-name match"],
     "level_text": "Metamorphic (entry alone vs in context) and differential (two extractors, two CLI routes) monitors plus an independent glob matcher; the CLI routes are observed on the real binary in a fabricated namespace.",
     "level_note": "Trusted: the extractor / exclusion wrapper hooks, the parsing of the binary's --verbose output, the fabricated /proc, /sys and /dev trees.",
